@@ -583,6 +583,8 @@ def boundary_hcases(full=True):
 
 # ------------------------------------------------------------------ python-side monitor
 FINDING_SYNACK = 'C03:synack-without-syn-queue-runs-cancelled-job'
+FINDING_O1 = 'C03:raising-accept-callback-leaves-worker-unanswered'       # F-C03-2
+REGISTERED = (FINDING_SYNACK, FINDING_O1)
 
 
 def seg_first_answer(seg):
@@ -606,7 +608,9 @@ def monitors(c, o):
        M4 (closed handshake) a job whose acceptance was announced to the caller -- its accept callback ran and
           returned, the worker is recorded as its owner -- is run by the worker and answered (READY), whatever
           the callback did (e.g. cancel the job: too late) and whatever landed on the handle meanwhile.  Judged
-          where the pool implements the handshake (linked, synack on, truthy descriptor) or has none (plain)."""
+          where the pool implements the handshake (linked, synack on, truthy descriptor) or has none (plain).
+          A RAISING accept callback is the code's way of refusing the job (`response = NACK`): then the job must
+          be answered (and a refused job not run); linked handshake and no answer at all = known finding F-C03-2."""
     out = []
     jobs = [e for e in c['ins'] if e[0] == 'msg']
     has_syn = c['synfd'] is not None and not (c['kind'] == 'h' and c['mode'] == 'plain')
@@ -653,7 +657,18 @@ def monitors(c, o):
             par = parents.get(str(j), {})
             lg = par.get('log', [])
             hooked = c['mode'] == 'plain' or (c['mode'] == 'linked' and c['send_ack'] and bool(c['synfd']))
-            if hooked and not par.get('raises') and any(x[0] == 'cb_accept' for x in lg):
+            cb_ran = any(x[0] == 'cb_accept' for x in lg)
+            if hooked and cb_ran and par.get('raises') and c['mode'] == 'linked':
+                if not any(x[0] == 'send_ack' for x in lg):
+                    out.append((FINDING_O1,
+                                'linked handshake, the accept callback of job %s raised: parent log %s, accepted()=%s, '
+                                'worker_pids()=%s, NO answer (neither ACK nor NACK) was sent for its ACK; the worker %s '
+                                '(workloop left by %s) -- `except self._propagate_errors` in ApplyResult._ack names an '
+                                'attribute that does not exist, the AttributeError is swallowed by on_ack' % (
+                                    j, lg, par.get('accepted'), par.get('pids'),
+                                    'ran the job without an answer' if ran else 'polled its SYN queue until the script ran out',
+                                    o['exit'])))
+            elif hooked and cb_ran:
                 cut = n == len(acks) - 1 and o['exit'][0] in ('taskexc', 'terminated')   # the task itself ended the loop
                 if not ran or not (ready or cut):
                     sent = [{0: 'ACK', 3: 'NACK'}.get(x[1], x[1]) for x in lg if x[0] == 'send_ack']
@@ -729,7 +744,7 @@ def correspond(res, n):
             mon.append((len(json.dumps(c)), dict(signature=sig, what='%s; case %s' % (what, brief(c)[:700]),
                                                  replay=dict(case=c, impl=o, monitor=sig))))
     for _, a in sorted(mon, key=lambda x: ('cb_result' not in x[1]['what'], x[0])):      # most telling, smallest first
-        (late_alarms if a['signature'] == FINDING_SYNACK else res.alarms).append(a)
+        (late_alarms if a['signature'] in REGISTERED else res.alarms).append(a)
     # the same configuration with a REAL pool and a real worker process
     rcases = [dict(kind='real', synack=True, cancel=True), dict(kind='real', synack=True, cancel=False)]
     if full:
